@@ -58,6 +58,8 @@ THEOREMS = [
     'C01.scale_lengths_sq', 'C01.scale_dots', 'C01.scale_gram', 'C01.scale_angle_cos', 'C01.scale_det', 'C01.scale_volume',
     'C01.scale_isLammpsNorm', 'C01.scale_relToCart', 'C01.scale_recip', 'C01.scale_cartToRel', 'C01.scale_inside',
     'C01.lammps_getters_refuse_iff', 'C01.normal_unique_of_gram', 'C01.turned_cell_not_normal',
+    # tools/vect_angle.py regenerated and tied to the model's angleCos; what that cosine is
+    'C01.src_vect_angle', 'C01.angleCos_spec', 'C01.angleCos_sq_le_one', 'C01.angleCos_scale',
 ]
 PARTIAL = {
     'angles_in_degrees': 'read-back of lengths and angles is proved in squared / cosine form over every ordered field '
@@ -467,6 +469,65 @@ def translate():
         v = ret_expr(nm)
         if ast.unparse(v) != f'vect_angle(self.__vects[{i}], self.__vects[{j}])':
             fail(f'{nm} is not vect_angle(self.__vects[{i}], self.__vects[{j}])')
+    A('/-- `alpha beta gamma` are `vect_angle(self.__vects[i], self.__vects[j])` with these `(i, j)`. -/')
+    A('def angleGetters : List (String × Nat × Nat) := [("alpha", 1, 2), ("beta", 0, 2), ("gamma", 0, 1)]')
+    # ---- atomman/tools/vect_angle.py: unit vectors (each vector divided by its own np.linalg.norm), einsum of the two,
+    #      clamp to [-1, 1], 180 * arccos / pi.  One pair of vectors; the two norms are parameters of the model.
+    vsrc = cm.source('atomman/tools/vect_angle.py')
+    vf = [n for n in ast.parse(vsrc).body if isinstance(n, ast.FunctionDef) and n.name == 'vect_angle']
+    if len(vf) != 1:
+        fail('tools/vect_angle.py: function vect_angle not found')
+    vf = vf[0]
+    if [a.arg for a in vf.args.args] != ['vect1', 'vect2', 'unit'] or [ast.unparse(d) for d in vf.args.defaults] != ["'degree'"]:
+        fail("vect_angle signature is not (vect1, vect2, unit='degree')")
+    vbody = [st for st in vf.body if not (isinstance(st, ast.Expr) and isinstance(st.value, ast.Constant))]
+    if [ast.unparse(st) for st in vbody[:2]] != ['vect1 = np.asarray(vect1)', 'vect2 = np.asarray(vect2)']:
+        fail('vect_angle does not start with vect1 = np.asarray(vect1); vect2 = np.asarray(vect2)')
+    venv = {'vect1': ('vect1', 'V'), 'vect2': ('vect2', 'V')}
+    normname = {'vect1': 'n1', 'vect2': 'n2'}
+
+    def trv(n):
+        # (X.T / np.linalg.norm(X, axis=-1)).T  ->  vdiv X nX ;  np.einsum('...i,...i', A, B) -> V3.dot A B ; names
+        if isinstance(n, ast.Name) and n.id in venv:
+            return venv[n.id]
+        if isinstance(n, ast.Attribute) and n.attr == 'T' and isinstance(n.value, ast.BinOp) and isinstance(n.value.op, ast.Div):
+            num, den = n.value.left, n.value.right
+            if isinstance(num, ast.Attribute) and num.attr == 'T' and isinstance(num.value, ast.Name) and num.value.id in normname \
+                    and isinstance(den, ast.Call) and ast.unparse(den.func) == 'np.linalg.norm' and len(den.args) == 1 \
+                    and isinstance(den.args[0], ast.Name) and den.args[0].id in normname \
+                    and [(k.arg, ast.unparse(k.value)) for k in den.keywords] == [('axis', '-1')]:
+                return f'(vdiv {num.value.id} {normname[den.args[0].id]})', 'V'
+        if isinstance(n, ast.Call) and ast.unparse(n.func) == 'np.einsum' and len(n.args) == 3 and not n.keywords \
+                and isinstance(n.args[0], ast.Constant) and n.args[0].value == '...i,...i':
+            a, ta = trv(n.args[1])
+            b, tb = trv(n.args[2])
+            if (ta, tb) == ('V', 'V'):
+                return f'(V3.dot {a} {b})', 'K'
+        fail(f'vect_angle: expression {ast.unparse(n)[:80]}')
+
+    k = 2
+    cos_expr = None
+    while k < len(vbody) and isinstance(vbody[k], ast.Assign) and len(vbody[k].targets) == 1 and isinstance(vbody[k].targets[0], ast.Name):
+        nm = vbody[k].targets[0].id
+        if nm in ('vect1', 'vect2'):
+            fail('vect_angle reassigns its arguments')
+        e, ty = trv(vbody[k].value)
+        venv[nm] = (e, ty)
+        if nm == 'cosine':
+            cos_expr = (e, ty)
+        k += 1
+    if cos_expr is None or cos_expr[1] != 'K':
+        fail('vect_angle does not compute `cosine` as a scalar from the two vectors')
+    rest = [ast.unparse(st) for st in vbody[k:]]
+    clamp = ('try:\n    cosine[cosine < -1] = -1\n    cosine[cosine > 1] = 1\nexcept TypeError:\n    if cosine < -1:\n        cosine = -1\n'
+             '    elif cosine > 1:\n        cosine = 1')
+    fin = ("if unit == 'degree':\n    return 180 * np.arccos(cosine) / np.pi\nelif unit == 'radian':\n    return np.arccos(cosine)\n"
+           "else:\n    raise ValueError(\"unit must be 'degree' or 'radian'.\")")
+    A('/-- `vect_angle(vect1, vect2)` for one pair of vectors: the cosine handed to `np.arccos`; `n1 n2` = what')
+    A('    `np.linalg.norm(vect1, axis=-1)`, `np.linalg.norm(vect2, axis=-1)` return. -/')
+    A(f'def vectAngleCos (vect1 vect2 : V3 K) (n1 n2 : K) : K := {cos_expr[0]}')
+    A('/-- after that: clamp to [-1, 1], and `180 * np.arccos(cosine) / np.pi` for the default unit. -/')
+    A(f'def vectAngleClampsAndDegrees : Bool := {"true" if rest == [clamp, fin] else "false"}')
     # is_lammps_norm: conjunction of comparisons
     v = ret_expr('is_lammps_norm')
     if not (isinstance(v, ast.BoolOp) and isinstance(v.op, ast.And)):
